@@ -18,7 +18,9 @@ def spellings(name, long_name, siblings_long, attrs, rng, full):
     out = [name.upper(), name.lower(), mixed(name)]
     if long_name and siblings_long.count(long_name) == 1 and long_name.lower() not in attrs and long_name != name:
         out += [long_name.upper(), long_name.lower(), mixed(long_name)]
-    return out if full else [out[0]] + rng.sample(out[1:], min(2, len(out) - 1))
+    # (a long name that is no Python identifier — a leading digit, blanks inside: six table rows — is always spelled in full: seed C14-b)
+    odd = bool(long_name) and not __import__('re').match(r'^[A-Za-z_][A-Za-z0-9_]*$', long_name)
+    return out if (full or odd) else [out[0]] + rng.sample(out[1:], min(2, len(out) - 1))
 
 
 def val_for(ref):
@@ -44,7 +46,11 @@ def run(tier, seed):
         segs = sorted(n for n in lib.SEGMENTS if n not in ex.get(v, []))
         isfull = v in full
         if not isfull:
-            segs = rng.sample(segs, min(len(segs), 8))
+            import re as _re
+            odd_segs = [n for n in segs if gen.is_seq(lib.SEGMENTS[n]) and len(lib.SEGMENTS[n]) > 1 and gen.is_seq(lib.SEGMENTS[n][1]) and
+                        any(gen.is_seq(r) and len(r) == 4 and gen.well_formed_ref(r[1]) and len(r[1]) == 6 and r[1][3] and
+                            not _re.match(r'^[A-Za-z_][A-Za-z0-9_]*$', r[1][3]) for r in lib.SEGMENTS[n][1])]
+            segs = sorted(set(rng.sample(segs, min(len(segs), 8))) | set(odd_segs))
         allfields = sorted(lib.FIELDS)
         for S in segs:
             rows = lib.SEGMENTS[S][1]
@@ -81,7 +87,11 @@ def run(tier, seed):
             by_dt.setdefault(lib.FIELDS[fn][2], []).append(fn)
         chosen = [fs[0] for fs in by_dt.values()] + rng.sample(fnames, min(len(fnames), 60 if isfull else 5))
         if not isfull:
-            chosen = rng.sample(chosen, min(len(chosen), 12))
+            import re as _re
+            odd_f = [fs[0] for dt_, fs in by_dt.items() if gen.is_seq(lib.DATATYPES_STRUCTS.get(dt_)) and
+                     any(gen.is_seq(r) and len(r) == 4 and gen.well_formed_ref(r[1]) and len(r[1]) == 6 and r[1][3] and
+                         not _re.match(r'^[A-Za-z_][A-Za-z0-9_]*$', r[1][3]) for r in lib.DATATYPES_STRUCTS[dt_])]
+            chosen = sorted(set(rng.sample(chosen, min(len(chosen), 12))) | set(odd_f))
         for F in sorted(set(chosen)):
             fref = lib.FIELDS[F]
             D, crows = fref[2], fref[1]
